@@ -42,7 +42,15 @@ def run(ctx, ck) -> None:
     world, table = ctx.world, ctx.table
     ck.assume('the symmetric band Toeplitz matrix T[i,j] = band[|i-j|] is symmetric (mathematical fact about the intended matrix; the kernels\' computed result is C09\'s business)')
     if table.default_tags is None:
-        ck.incomplete('G1', f'{CORE}._monkey_patch_operator', 'the default-False tag registration of __init_subclass__ was not recognised')
+        base = table.find(f'{CORE}.AbstractLinearOperator')
+        hook = base.own.get('__init_subclass__') if base is not None else None
+        metaclass = base is not None and any(k.arg == 'metaclass' for k in base.node.keywords)
+        if base is not None and hook is None and not metaclass:
+            ck.bad('G1', base.node, 'AbstractLinearOperator has no __init_subclass__: the default-False tags are no longer registered for every subclass at its creation, so a subclass that '
+                   'is not decorated answers the tag queries with whatever a tagged base later in its MRO declared (e.g. class X(Mixin, DiagonalOperator) is reported diagonal and symmetric '
+                   'whatever Mixin does to the matrix)', instance='per-subclass default tags')
+        else:
+            ck.incomplete('G1', f'{CORE}._monkey_patch_operator', 'the default-False tag registration of __init_subclass__ was not recognised')
     kinds = all_mv(ctx)
     pol: Polarimetry = ctx.cache.get('polarimetry') or Polarimetry(world, table)
     ctx.cache['polarimetry'] = pol
